@@ -131,6 +131,8 @@ def evaluate(case, native):
         return True, 'the real code panicked: ' + native['panic'][-300:]
     if kind == 'fold_order':
         totals = [r + a for r, a in zip(case['route_estimates'], case['activity_estimates'])]
+        if case.get('pair_costs'):
+            totals = [c for row in case['pair_costs'] for c in row]
         best = float(min(totals))
         seen = sorted({(r['threads'], tuple(r['cost']) if r['cost'] else None) for r in native['results']})
         bad = [(t, c) for t, c in seen if c is None or c[0] != best]
